@@ -10,9 +10,8 @@
      _compare_frame_rankings, PARTIAL [cfr_level_pairs_stmt_partial]: the statement that builds the level pairs
                             (itertools.combinations(levels, 2) / [(i, i + 1) for i in levels]) = Model.Hierarchy.level_pairs,
                             in every environment that binds `transitive` and `levels`.
-   NOT tied yet (the programs are generated and evaluate - see the Examples at the end - but no theorem relates them to the
-   model): the rest of _compare_frame_rankings (argsort oracle, np.unique positions, defaultdicts, the two loops), _gauc, _lca;
-   _meet is not translated.
+   The rest is in Proofs/HierTieCfr.v (_compare_frame_rankings, whole body, argsort oracle), Proofs/HierTieGauc.v (_gauc) and
+   Proofs/HierTieLca.v (_round on arrays, _lca). _meet is not translated.
    Facts about generated code are obtained by evaluation of the generated terms only. *)
 From Coq Require Import String.
 From Coq Require Import List Bool Arith ZArith QArith Qabs Qminmax Qround Lia Lqa Permutation.
@@ -126,7 +125,7 @@ Lemma exec_while c b en :
 Proof. reflexivity. Qed.
 Lemma while_loop_S cond body k en :
   while_loop cond body (S k) en
-  = lift_e (cond en) (fun t => if t then match body en with SNorm en' => while_loop cond body k en' | r => r end else SNorm en).
+  = lift_e (cond en) (fun t => if t then match body en with SNorm en' | SCnt en' => while_loop cond body k en' | r => r end else SNorm en).
 Proof. reflexivity. Qed.
 Lemma zltb_nat i n : (Z.of_nat i <? Z.of_nat n)%Z = (i <? n).
 Proof. destruct (Nat.ltb_spec i n); [apply Z.ltb_lt|apply Z.ltb_ge]; lia. Qed.
@@ -276,7 +275,7 @@ Proof. induction l as [|x t IH]; [reflexivity|]. cbn [map combs]. rewrite map_ap
 Lemma combs_combs2 (L : list nat) : combs L = combs2 L.
 Proof. induction L as [|x t IH]; [reflexivity|]. cbn [combs combs2]. rewrite IH. reflexivity. Qed.
 Local Arguments concatM l : simpl never.
-Lemma sres_id r : match r with SNorm en' => SNorm en' | SRet v => SRet v | SExn e => SExn e | SUnm => SUnm end = r.
+Lemma sres_id r : match r with SNorm en' => SNorm en' | SRet v => SRet v | SExn e => SExn e | SCnt en' => SCnt en' | SUnm => SUnm end = r.
 Proof. destruct r; reflexivity. Qed.
 Theorem cfr_level_pairs_stmt_partial : forall (en : env) (tr : bool) (L : list nat),
   lookup "transitive" en = Some (VBool tr) -> lookup "levels" en = Some (VNVec L) ->
